@@ -54,14 +54,17 @@ func outcomeCases(flagged bool) ([]scen.Case, func(scen.Case) scen.Unit, func(sc
 		for _, resp := range []string{"", "201 Created"} {
 			id := fmt.Sprintf("o%04d", len(cases))
 			sub := func(s string) string { return strings.ReplaceAll(s, "§", id) }
-			m := scen.Method{Name: "Op" + id, Verb: "GET", Route: scen.S("/op"), Ret: sub(o.Ret), Err: sub(o.Err), Response: resp, ErrResps: []string{"409 conflict", "500 boom"},
+			// the route is written plainly, with a trailing slash, or with a doubled slash (the joined path then reads
+			// /<id>/op, /<id>/op/ and /<id>/op): every engine must serve the documented path
+			routeForm := []string{"/op", "/op/", "//op"}[len(cases)%3]
+			m := scen.Method{Name: "Op" + id, Verb: "GET", Route: scen.S(routeForm), Ret: sub(o.Ret), Err: sub(o.Err), Response: resp, ErrResps: []string{"409 conflict", "500 boom"},
 				Body: strings.ReplaceAll(o.Body, "\"§\"", "\"C"+id+".Op"+id+"\"")}
 			m.Body = sub(m.Body)
 			ctl := scen.Controller{Name: "C" + id, Pkg: id, Prefix: scen.S("/" + id), Tag: scen.S("T" + id), Methods: []scen.Method{m}}
 			decl := sub("type Res§ struct {\n\tA string `json:\"a\"`\n\tN int `json:\"n\"`\n\tL []string `json:\"l\"`\n}\n\ntype CErr§ struct {\n\terror\n\tCode int `json:\"code\"`\n}\n\ntype VRes§ struct {\n\tA string `json:\"a\" validate:\"required\"`\n\tN int `json:\"n\" validate:\"lte=100\"`\n}\n")
 			cases = append(cases, scen.Case{ID: id, Unit: scen.Unit{Controllers: []scen.Controller{ctl}, Decls: map[string]string{id: decl},
 				Imports: map[string][]string{id: append([]string{"github.com/gopher-fleece/runtime"}, rt.RtImports...)}},
-				Features: map[string]string{"family": "outcome", "outcome": o.Name, "response": resp}, Desc: map[string]any{"outcome": outs[i].Name, "controller": ctl}})
+				Features: map[string]string{"family": "outcome", "outcome": o.Name, "response": resp, "route-form": routeForm}, Desc: map[string]any{"outcome": outs[i].Name, "controller": ctl}})
 		}
 	}
 	if flagged {
@@ -84,7 +87,11 @@ func outcomeCases(flagged bool) ([]scen.Case, func(scen.Case) scen.Unit, func(sc
 			}
 			return out
 		}
-		return []rt.Request{{ID: c.ID + "#0", Verb: "GET", URL: "/" + c.ID + "/op"}}
+		url := "/" + c.ID + "/op"
+		if c.Features["route-form"] == "/op/" {
+			url += "/"
+		}
+		return []rt.Request{{ID: c.ID + "#0", Verb: "GET", URL: url}}
 	}
 	return cases, instrument, reqsFor
 }
